@@ -303,16 +303,17 @@ theorem logPlan_meets_logql (E : Env V) (h0 : E.o.isNum [] = false) (c : Read.Ct
     `sum/avg/min/max/first/last_over_time`), an optional comparison, an optional vector aggregation
     (`sum/min/max/avg/count` with `by/without`) with its optional comparison — and for **every batching** of proper
     upstream entries, the messages the engine sends are exactly `LogQL.Stages.evalPlan` of the flat entry list: the
-    definition applied stage by stage. Hypotheses (`MetricOk`, stated on the specification side): the function is
-    one the engine has a case for, the series reaching each aggregator fit under the cap, and fingerprints identify
-    label sets there (`metricOk_of_noCollision` derives that from the hash-collision hypothesis).
+    definition applied stage by stage (for a function name the engine has no case for — `stddev/stdvar_over_time` —
+    both sides are empty). Hypotheses (`MetricOk`, stated on the specification side): the series reaching each
+    aggregator fit under the cap, and fingerprints identify label sets there (`metricOk_from_noCollision` derives
+    that from the hash-collision hypothesis).
     Proof: `stages_meet_logql` (induction over the stage list) then the per-stage theorems in plan order. -/
 theorem metricPlan_meets_logql (E : Env V) (h0 : E.o.isNum [] = false) (c : Read.Ctx) (p : Plan V)
     (hm : p.agg.isSome = true) (bs : Batches V) (hp : ∀ e ∈ bs.flatten, e.err = none)
     (hok : MetricOk E c p bs.flatten) :
     runPlan E c p bs = evalPlan E c p bs.flatten := by
   obtain ⟨⟨k, dur⟩, hk⟩ := Option.isSome_iff_exists.mp hm
-  obtain ⟨hsup, hcap, hf, hcapV, hfV⟩ := hok
+  obtain ⟨hcap, hf, hcapV, hfV⟩ := hok
   have hst := stages_meet_logql E h0 p.stages bs.flatten hp
   have hflat : (runStages E p.stages bs).flatten = stages E p.stages bs.flatten := by
     rw [batching_invariant_stages]; exact hst.1
@@ -331,12 +332,16 @@ theorem metricPlan_meets_logql (E : Env V) (h0 : E.o.isNum [] = false) (c : Read
           (optByWithout E p.aggBy (stages E p.stages bs.flatten)) else []) := by
     cases k with
     | range fn =>
-      have hfn : rangeCounts fn = true := by simpa [aggSupported, hk] using hsup
       simp only [aggInput, hk] at hcap hf
-      simp only [hfn, if_true]
-      rw [stage_meets_logql_rangeAgg E.num c.maxSeries _ dur fn hfn _ hprop (by rw [hflat]; exact hcap) (by rw [hflat]; exact hf), hflat]
+      by_cases hfn : rangeCounts fn = true
+      · simp only [hfn, if_true]
+        rw [stage_meets_logql_rangeAgg E.num c.maxSeries _ dur fn hfn _ hprop (by rw [hflat]; exact hcap) (by rw [hflat]; exact hf), hflat]
+      · -- a name `LRAPlanner.addValue` has no case for: nothing is counted, nothing is emitted
+        have hfo : fn = .other := by cases fn <;> simp [rangeCounts] at hfn ⊢
+        subst hfo
+        simp only [rangeCounts, Bool.false_eq_true, if_false]
+        exact run_aggOps_idle E.num c.maxSeries _ _ (fun _ _ => rfl) _ hprop (by rw [hflat]; exact hcap)
     | unwrap fn =>
-      have hfn : unwrapCounts fn = true := by simpa [aggSupported, hk] using hsup
       simp only [aggInput, hk] at hcap hf
       have hbw := runByWithout_flatten E p.aggBy _ hprop
       rw [hflat] at hbw
@@ -350,8 +355,13 @@ theorem metricPlan_meets_logql (E : Env V) (h0 : E.o.isNum [] = false) (c : Read
           simp only [optByWithout, byWithoutStage, List.mem_map] at he
           obtain ⟨x, hx, rfl⟩ := he
           exact hsp x hx
-      simp only [hfn, if_true]
-      rw [stage_meets_logql_unwrapAgg E.num c.maxSeries _ dur fn hfn _ hprop' (by rw [hbw]; exact hcap) (by rw [hbw]; exact hf), hbw]
+      by_cases hfn : unwrapCounts fn = true
+      · simp only [hfn, if_true]
+        rw [stage_meets_logql_unwrapAgg E.num c.maxSeries _ dur fn hfn _ hprop' (by rw [hbw]; exact hcap) (by rw [hbw]; exact hf), hbw]
+      · have hfo : fn = .other := by cases fn <;> simp [unwrapCounts] at hfn ⊢
+        subst hfo
+        simp only [unwrapCounts, Bool.false_eq_true, if_false]
+        exact run_aggOps_idle E.num c.maxSeries _ _ (fun _ _ => rfl) _ hprop' (by rw [hbw]; exact hcap)
   cases hv : p.vec with
   | none =>
     simp only [runPlan, evalPlan, hk, hv, runCmp_eq]
@@ -414,15 +424,14 @@ theorem plan_batching_independent (E : Env V) (h0 : E.o.isNum [] = false) (c : R
   rw [plan_meets_logql E h0 c p bs hp hok f, plan_meets_logql E h0 c p bs' (hflat ▸ hp) (hflat ▸ hok) f, hflat]
 
 /-- the hash-collision hypothesis instead of `FpFaithful`: for a plan whose in-process stages contain one that
-    rewrites labels (true of every split at `json`/`logfmt`), `MetricOk` follows from: supported function, series
-    under the cap, and no two different label sets reaching an aggregator have the same fingerprint -/
+    rewrites labels (true of every split at `json`/`logfmt`), `MetricOk` follows from: series under the cap, and no two different label sets reaching an aggregator have the same fingerprint -/
 theorem metricOk_from_noCollision (E : Env V) (c : Read.Ctx) (p : Plan V) (es : List (Entry V)) (hm : p.agg.isSome = true)
-    (hr : ∃ s ∈ p.stages, s.relabels = true) (hsup : aggSupported p = true)
+    (hr : ∃ s ∈ p.stages, s.relabels = true)
     (hcap : (firstBy (fun e : Entry V => e.fp) (aggInput E p es)).length ≤ c.maxSeries)
     (hcapVec : (firstBy (fun e : Entry V => e.fp) (vecInput E c p es)).length ≤ c.maxSeries)
     (hnc : NoCollision E ((aggInput E p es).map (·.labels)))
     (hncVec : NoCollision E ((vecInput E c p es).map (·.labels))) : MetricOk E c p es :=
-  metricOk_of_noCollision E c p es hm hr hsup hcap hcapVec hnc hncVec
+  metricOk_of_noCollision E c p es hm hr hcap hcapVec hnc hncVec
 
 /-! ## 3. the two engines agree on the stages both implement, at every split point -/
 
@@ -813,7 +822,7 @@ def exE2 : Entry Int := ⟨20, 7, [([120], [121])], [2], 0, none⟩
 def exInput : List (Entry Int) := [exE1, exE2]
 
 example : MetricOk exEnv ⟨0, 120, 0, 3000, 2000⟩ (exPlan (some (.sum, none, none))) exInput := by
-  refine ⟨by decide +kernel, by decide +kernel, ?_, by decide +kernel, ?_⟩ <;> unfold FpFaithful <;> decide +kernel
+  refine ⟨by decide +kernel, ?_, by decide +kernel, ?_⟩ <;> unfold FpFaithful <;> decide +kernel
 
 example : ((runPlan exEnv ⟨0, 120, 0, 3000, 2000⟩ (exPlan none) [[exE1], [], [exE2]]).flatten.map
     (fun e => (e.labels.get [112], e.val))) = [([50], 1), ([49], 1)] := by decide +kernel
